@@ -1306,3 +1306,99 @@ pub fn shrink(plan: &SeqPlan) -> Vec<SeqPlan> {
     }
     c
 }
+
+// ---------------------------------------------------------------------------------------------
+// C10 small-scope enumeration: chain length 0..=8 x base nil/non-nil x position of the existing
+// snapshot (none, each version) x requested v (nil, each version, chain base, fresh, foreign)
+
+pub fn snapgrid_cases() -> Vec<(u8, bool, Option<u8>, IdArgSel)> {
+    let mut v = Vec::new();
+    for n in 0..=8u8 {
+        for base_nonnil in [false, true] {
+            let mut snaps: Vec<Option<u8>> = vec![None];
+            for s in 1..=n {
+                snaps.push(Some(s));
+            }
+            for sp in snaps {
+                let mut sels = vec![IdArgSel::Nil, IdArgSel::Base, IdArgSel::Fresh, IdArgSel::Foreign];
+                for k in 1..=n {
+                    sels.push(IdArgSel::Pos(k));
+                }
+                for sel in sels {
+                    v.push((n, base_nonnil, sp, sel));
+                }
+            }
+        }
+    }
+    v
+}
+
+#[derive(Clone, Copy, Debug, PartialEq)]
+pub enum IdArgSel {
+    Nil,
+    Base,
+    Fresh,
+    Foreign,
+    /// the k-th accepted version (1-based)
+    Pos(u8),
+}
+
+pub fn gen_snapgrid(seed: u64, idx: u64, backend: Backend, entry: Entry) -> SeqPlan {
+    let cases = snapgrid_cases();
+    let (n, base_nonnil, snap_pos, sel) = cases[(idx % cases.len() as u64) as usize];
+    let mut r = Rng::stream(seed, "plan");
+    let mut tag = 0u32;
+    let mut pay = |r: &mut Rng| -> Pay {
+        tag += 1;
+        Pay { class: r.below(ops::N_CLASSES as u64) as u8, len: r.range(1, 30) as u32, tag }
+    };
+    let mut ops_v = Vec::new();
+    if entry == Entry::Lib {
+        ops_v.push(Op::Create { c: 0 });
+        ops_v.push(Op::Create { c: 1 });
+    }
+    // the other client owns two versions (source of foreign ids)
+    for _ in 0..2 {
+        ops_v.push(Op::AddVersion { c: 1, parent: IdArg::Latest, pay: pay(&mut r), ch: Chunking::Whole });
+    }
+    for i in 1..=n {
+        let parent = if i == 1 { if base_nonnil { IdArg::Fresh(1) } else { IdArg::Nil } } else { IdArg::Latest };
+        ops_v.push(Op::AddVersion { c: 0, parent, pay: pay(&mut r), ch: Chunking::Whole });
+        if snap_pos == Some(i) {
+            // store the existing snapshot while this version is the latest
+            ops_v.push(Op::AddSnapshot { c: 0, v: IdArg::Latest, pay: pay(&mut r), ch: Chunking::Whole });
+        }
+    }
+    let varg = match sel {
+        IdArgSel::Nil => IdArg::Nil,
+        IdArgSel::Base => IdArg::Base,
+        IdArgSel::Fresh => IdArg::Fresh(7),
+        IdArgSel::Foreign => IdArg::Foreign { dc: 0, back: 0 },
+        IdArgSel::Pos(k) => {
+            if k == n {
+                IdArg::Latest
+            } else {
+                // Back(j) names versions[len-2-j]
+                IdArg::Back(n - 1 - k)
+            }
+        }
+    };
+    ops_v.push(Op::GetSnapshot { c: 0 });
+    ops_v.push(Op::AddSnapshot { c: 0, v: varg, pay: pay(&mut r), ch: Chunking::Whole });
+    ops_v.push(Op::GetSnapshot { c: 0 });
+    SeqPlan {
+        seed,
+        backend,
+        entry,
+        page_size: None,
+        n_clients: 2,
+        cfg: Cfg { days: 14, versions: 100 },
+        start_us: 0,
+        ops: ops_v,
+        walk_every: 0,
+        audit: false,
+        instances: 1,
+        skews_us: vec![],
+        route: vec![],
+    }
+}
